@@ -1,5 +1,6 @@
 (* C06 — a failing algorithm is reported and never wedges the study.  Statements only. *)
 From VZ Require Import Base.Prelude Model.Service Proofs.ServiceP Proofs.WedgeP Proofs.EsP Proofs.SuggestSpecP Proofs.AlwaysDoneP.
+From VZ Require Model.HandlerIR Model.EarlyStopIR Gen.EarlyStopSrc Proofs.EarlyStopIRP.
 
 (* the continuation taken when Pythia fails / under-delivers / its metadata cannot be stored is finish_op: whenever the
    operation record exists, the RPC ends with a DONE operation carrying the error flag, and exactly that is stored *)
@@ -94,3 +95,10 @@ Print Assumptions C06_early_stop_reaches_the_algorithm.
 
 (* PARTIAL: that the handler programs are the code is the trace-level correspondence's business; a crash (not an error)
    inside SuggestTrials does leave the record unfinished: known finding C05-crash-inside-suggest-leaves-operation. *)
+
+(* CHECKTRIALEARLYSTOPPINGSTATE IS THE SOURCE: Gen/EarlyStopSrc.v is regenerated at every run from the method (block by block, see
+   Model/EarlyStopIR.v); the program it denotes is the handler program the early-stopping theorems above are about. *)
+Theorem C06_source_early_stop_is_the_model : forall recycle k id,
+  HandlerIR.peq (EarlyStopIR.early_stop_of EarlyStopSrc.src_CheckTrialEarlyStoppingState recycle k id) (handler (CheckEarlyStop recycle k id)).
+Proof. exact EarlyStopIRP.src_early_stop_is_h_check_early_stop. Qed.
+Print Assumptions C06_source_early_stop_is_the_model.
